@@ -123,6 +123,7 @@ type Node struct {
 	TagKey     string
 	OutPath    string
 	Globs      []string
+	Dup        bool // (FileGlobber) the patterns overlap: some file is emitted more than once
 	FilePath   string
 	Pred       string // selector predicate: "all", "even", "none"
 }
